@@ -19,6 +19,8 @@ func init() {
 }
 
 func runC27(w *World, r *Report) {
+	defer c27WholePassphrase(w, r)
+
 	r.Rule("R-C27-1", "every nil-error return in a decrypt call tree returns text derived from AEAD.Open's plaintext (or a tree function's result) and is unreachable once that call's nil-error edge is removed", 6)
 	r.Rule("R-C27-2", "every decrypt call tree contains a call of cipher.AEAD.Open reachable from its entry point", 2)
 	r.Rule("R-C27-3", "key provenance: the key given to aes.NewCipher in a decrypt tree is, on every path (all phi edges, all stored values, all call sites), computed from the caller's passphrase parameter; a key from any other source (a cache, a constant) lets a different passphrase decrypt", 2)
@@ -307,5 +309,90 @@ func c27KeyProvenance(w *World, r *Report, order []*ssa.Function, tree map[*ssa.
 				r.Violate("R-C27-3", key, w.pos(c.Pos()), "the cipher key can come from something other than the caller's passphrase ("+why+"): decryption may then succeed for a different passphrase")
 			}
 		})
+	}
+}
+
+// c27WholePassphrase: R-C27-4.  Two different passphrases must not derive the same key, so the
+// bytes handed to a key-derivation function are the whole passphrase: a plain []byte(passphrase)
+// conversion of a string parameter (or the parameter itself), never a slice of a fixed-size
+// scratch buffer, a sub-slice, or a value that went through copy().
+func c27WholePassphrase(w *World, r *Report) {
+	r.Rule("R-C27-4", "the password argument of every key-derivation call in package util (argon2.IDKey, pbkdf2.Key, md5.Sum, sha256.Sum256) is a plain conversion of a string parameter: no truncation, no fixed-size buffer", 3)
+
+	up := w.pkg("internal/util")
+	if up == nil {
+		return
+	}
+
+	kdf := map[string]int{ // callee -> index of the password argument
+		"golang.org/x/crypto/argon2.IDKey": 0, "golang.org/x/crypto/argon2.Key": 0, "golang.org/x/crypto/pbkdf2.Key": 0,
+		"crypto/md5.Sum": 0, "crypto/sha256.Sum256": 0, "crypto/sha1.Sum": 0, "golang.org/x/crypto/scrypt.Key": 0,
+	}
+
+	n := 0
+
+	for _, fn := range w.srcFuncs(up) {
+		count := 0
+
+		allInstrs(fn, func(in ssa.Instruction) {
+			c, ok := in.(*ssa.Call)
+			if !ok {
+				return
+			}
+
+			id := callID(c.Common())
+			if id == "" {
+				if f := staticCallee(c.Common()); f != nil && f.Pkg() != nil {
+					id = f.Pkg().Path() + "." + f.Name()
+				}
+			}
+
+			idx, isKDF := kdf[id]
+			if !isKDF || len(c.Call.Args) <= idx {
+				return
+			}
+
+			// only derivations from a passphrase: the argument must come from a string parameter at all
+			arg := c.Call.Args[idx]
+
+			fromParam := derivesFrom(arg, func(v ssa.Value) bool {
+				p, ok := v.(*ssa.Parameter)
+
+				return ok && isStringType(p.Type())
+			}, nil)
+
+			if !fromParam {
+				if _, isSlice := arg.(*ssa.Slice); !isSlice {
+					return
+				}
+			}
+
+			n++
+			count++
+
+			key := fnKey(fn) + "|" + id[strings.LastIndex(id, "/")+1:] + " gets the whole passphrase"
+			if count > 1 {
+				key += "#" + sprintInt(count)
+			}
+
+			plain := false
+
+			switch x := arg.(type) {
+			case *ssa.Convert:
+				_, plain = x.X.(*ssa.Parameter)
+			case *ssa.Parameter:
+				plain = true
+			}
+
+			if plain {
+				r.Discharge("R-C27-4", key, w.pos(in.Pos()), "[]byte(parameter)")
+			} else {
+				r.Violate("R-C27-4", key, w.pos(in.Pos()), "the key is derived from bytes that are not a plain conversion of the passphrase (a slice of a buffer, a copy, a truncation): two passphrases that agree on the part that is used derive the same key, so a ciphertext opens under a wrong passphrase")
+			}
+		})
+	}
+
+	if n == 0 {
+		r.Anchor("R-C27-4", "key-derivation calls in package util")
 	}
 }
